@@ -1,5 +1,6 @@
 """C13 - grouped, conditional and entropy statistics are compositions of pc and pcDelta."""
 from .. import AnalysisBroken
+from ..eff import check_pure_params
 from ..libmodels import LIB_FACTS
 from ..rules import Equiv, canon_binders, canon_params, check_equiv, close_loops, compare_function, std_rewrites, where_of
 from ..terms import NONE, const, head, is_const, show, strip, strip_all, subst, walk
@@ -113,6 +114,9 @@ def run(r):
     rep = r.rep
     rep.explanation = "The six functions were reduced to decision tables with rational-function / loop-closed leaves and compared with the specification; the rank of every squareform argument was inferred."
     rep.trust(LIB_FACTS["groupby"], LIB_FACTS["squareform"], "itertools.combinations(groups, 2) enumerates pairs in the lexicographic order that squareform expects (DESIGN A.7)", "exact arithmetic")
+    # purity first: cheap, robust, and a recorded violation takes precedence over a later 'cannot decide'
+    check_pure_params(r, "C13-PURE", ["pyrepseq.entropy.renyi2_entropy", "pyrepseq.entropy.stdrenyi2_entropy", S + "pc_conditional", S + "pc_grouped_cross", "pyrepseq.distance.pcDelta_grouped", "pyrepseq.distance.pcDelta_grouped_cross"])
+    rep.floor("C13-PURE", 18)
     rw = std_rewrites() + [canon_binders]
     compare_function(r, "C13-ENT", "pyrepseq.entropy.renyi2_entropy", SPEC, "renyi2_entropy == -log_base of pc / pc_joint / pc_conditional chosen by the documented table; non-positive base raises first",
                      eq=Equiv(rewrites=rw), key="entropy")
